@@ -51,6 +51,9 @@ def namedFunc (name : String) : Option (List Val → Val) :=
   | "len" => some fun vs => .int vs.length
   | "last" => some lastOf
   | "first" => some firstOf
+  | "first_of" => some firstOf
+  | "last_of" => some lastOf
+  | "join_strings" => some joinVals
   | "nanmean" => some fun vs =>
       match vs.filterMap Val.finite? with
       | [] => .nan
